@@ -100,7 +100,7 @@ CHECKS = {
     "C07": dict(
         engine="E1-family-explorer",
         technique="exhaustive enumeration of parameter-name assignments (4^5) and ordered stochastic dependency lists (85 x 3 horizons) for the template; per model all single-leaf and single-shock-row perturbations plus a beta sweep against the name-routing reference",
-        text="Template: all 1024 assignments of parameter-name subsets of {a,b} to utility, auxiliary, constraint and two transition functions, and all 85 ordered dependency lists over {h,d,s,g,_period} (<= 3 entries) x T in {1,2,3}: key set, parameter names per function and shock-array shapes must equal the documented contract. Routing: for every Family_1 model and five collision bases (same name in utility, auxiliary, constraint and transition; parameters literally named beta; equal-sized dependencies) every template leaf and every shock row is perturbed alone and beta runs over {0,0.5,0.95,1}; lcm's solution must equal the reference, which routes by function name by construction, in every grid state.",
+        text="Template: all 1024 assignments of parameter-name subsets of {a,b} to utility, auxiliary, constraint and two transition functions, and all 85 ordered dependency lists over {h,d,s,g,_period} (<= 3 entries) x T in {1,2,3}: key set, parameter names per function and shock-array shapes must equal the documented contract. Routing: for every Family_1 model and five collision bases (same name in utility, auxiliary, constraint and transition; parameters literally named beta; equal-sized dependencies) every template leaf and every shock row is perturbed alone and beta runs over {0,0.5,0.95,1,1.04,1.25}; one model feeds a transition output to a constraint; lcm's solution must equal the reference, which routes by function name by construction, in every grid state.",
         note="pairwise distinct leaf values make any cross-talk visible; simulation rows are checked on the collision bases only (C02 covers rows)",
         design="§4 C07",
     ),
